@@ -787,7 +787,7 @@ func main() {
 	r := ev.Start("C13", "exploration")
 	nilReceivers(r)
 	r.RunShards(32, runtime.NumCPU(), 8<<30)
-	r.Rule("deterministic product: (plus: runs of 0..11 continuation bytes 0x80/0xFF, with and without a terminating byte, as varint value, packed payload, nested payload and key, at the end of the buffer and followed by a field, under 12 definitions) message family = 3 tags x ~24 field shapes each (absent; varint x1/x2 incl. 32-bit overflow and sign-extended negatives; fixed32/64 x1/x2; LEN empty / string / repeated strings incl. empty / packed varint runs incl. empty run / packed fixed / nested messages to depth 2 (3 thorough) incl. the EMPTY nested message and repeated nested), assembled ascending and interleaved; definition family = 4 tags x 9 options (absent, flat, negative, 3 nested sub-definitions, nested+negative) = 6561 definitions; explored as (all messages x core definitions) U (core messages x all definitions) [quick: every 16th / 12th combination, thorough: all]; x {safe, fast} x {Decoder.Decode, Decode()} x 26 typed accessors via DecodeResult and via FieldData, GetFieldData, FieldData(path), NestedResult(s), Range. Plus all byte strings <= 4 (5) over a 16-symbol alphabet x 12 definitions (full oracle when the reference accepts them, otherwise no-panic). evaluations = lazyref.Accessor calls; distinct_nontrivial = lazyref.Accessor evaluations on a PRESENT field (reference produced a value or a typed error).")
+	r.Rule("(every second long-lived Decoder object carries WithMaxBufferSize(1): results trimmed on Close are recycled from message to message) deterministic product: (plus: runs of 0..11 continuation bytes 0x80/0xFF, with and without a terminating byte, as varint value, packed payload, nested payload and key, at the end of the buffer and followed by a field, under 12 definitions) message family = 3 tags x ~24 field shapes each (absent; varint x1/x2 incl. 32-bit overflow and sign-extended negatives; fixed32/64 x1/x2; LEN empty / string / repeated strings incl. empty / packed varint runs incl. empty run / packed fixed / nested messages to depth 2 (3 thorough) incl. the EMPTY nested message and repeated nested), assembled ascending and interleaved; definition family = 4 tags x 9 options (absent, flat, negative, 3 nested sub-definitions, nested+negative) = 6561 definitions; explored as (all messages x core definitions) U (core messages x all definitions) [quick: every 16th / 12th combination, thorough: all]; x {safe, fast} x {Decoder.Decode, Decode()} x 26 typed accessors via DecodeResult and via FieldData, GetFieldData, FieldData(path), NestedResult(s), Range. Plus all byte strings <= 4 (5) over a 16-symbol alphabet x 12 definitions (full oracle when the reference accepts them, otherwise no-panic). evaluations = lazyref.Accessor calls; distinct_nontrivial = lazyref.Accessor evaluations on a PRESENT field (reference produced a value or a typed error).")
 	r.Assume("each requested field number uses one wire type throughout (property's own precondition); messages mixing wire types are only in the no-panic set")
 	r.Assume("where the statement is silent (e.g. reading a string as packed varints that happens to parse) the reference's own expansion is used: parse success => values must match, parse failure => any error")
 	r.Finish()
